@@ -156,6 +156,8 @@ def check(tier, vseed, args):
             "divergences_unattributed": stats.c.get("div.unattributed", 0),
             "distinct_situation_op_fault_triples": len(sits),
             "situation_counts": stats.group("sit."),
+            "simulated_processes_in_fresh_interpreters_with_other_hash_seed": stats.c.get(
+                "fresh_interpreter_processes", 0),
             "cache_writes_seen_through_seam": stats.c.get("writes_seen", 0),
             "cache_writes_not_seen_through_seam": stats.c.get("writes_unseen", 0),
             "crash_sweep": sweep_cov,
